@@ -64,11 +64,12 @@ CLAIMED['C07'] = dict(
 CLAIMED['C13'] = dict(
     technique="Coq invariant proof (every admissible list edit preserves parent/list consistency) by a generic update lemma, induction over histories; model tied by differential runs",
     text=("Theorems: for every admissible operation among construct/append/prepend/insert/extend/+=/item and slice assignment/"
-          "item and slice deletion/pop/remove/clear/drop/list copy/reverse and every history of them, from any consistent state, "
+          "item and slice deletion/pop/remove/clear/drop/list copy/reverse/flatten and every history of them, from any consistent state, "
           "every listed unit names the listing sequence as parent, every unit naming a parent is listed there and no unit is listed "
           "twice; previous/next navigation equals the list neighbours (IndexError at the ends), removed units name no parent. "
-          "Flatten and deep copy are outside the general theorem (flatten: instance by computation + correspondence + oracle; "
-          "deep copy: oracle) - partial. Adding a still-listed unit is excluded by the hypothesis 'admissible' and recorded as known "
+          "Flatten (walk over a snapshot, inner sequences dissolved on the spot, list rebuilt) preserves consistency for every "
+          "sequence that does not list itself, so every admissible history including flatten keeps every reachable state consistent. "
+          "Deep copy of a tree is covered by C12's theorem and the oracle (partial here). Adding a still-listed unit is excluded by the hypothesis 'admissible' and recorded as known "
           "finding add-listed-unit with a machine-checked refutation witness."),
     note=("Trusted: Coq kernel (no axioms); hand-written model coq/lib/UnitTree.v tied to unit.py/sequence.py by the correspondence "
           "run (600 quick / 4000 thorough histories, full snapshot after every operation); Python list index/slice normalisation "
